@@ -34,7 +34,7 @@ ASSUMPTIONS = ["values inside a shape are concrete-looking: non-empty, free of t
 BOUNDED = ['shapes per template: all values; one * at each position; a two-element comma list at each position; an alias in the last segment (leaf types); /** replacing every proper tail; /** in the middle before the last segment; '
            'one query filter on an existing key with a value / list / alias; malformed: two **, untypable root, junk, untypable with query. Two comma lists and two filters only in the thorough tier.']
 EXPLANATION = 'unfold_search against an independent denotation oracle on enumerated search shapes with symbolic contents'
-BUDGET_S = {'quick': 1200, 'thorough': 3600}
+BUDGET_S = {'quick': 1500, 'thorough': 2400}
 NAME_RE = '[A-Za-z0-9_.\\-]+'
 SYNTAX = set('*><,?&=:~ \t\n\r/#%+;')
 
